@@ -29,9 +29,9 @@ READY = {
          "and tags treat every sibling independently (no value carried between iterations, no break: dataflow obligations). Duplicate detection and "
          "whole-string verdict equality: bounded workload (all trees <= 3-4 leaves, all orderings/spellings/blank rewrites)." + BND,
          "casefold uninterpreted; HedTag model (short_tag/org_tag as fields); canonical sort (HedGroup.sorted) bounded only"),
- "C05": ("other", 'Deductive kernel: the refusal to save a multi-library merge (raises before anything is written, ghost output counter), the selection table deciding which entries/attributes are written (_should_skip, _attribute_disallowed, flags set by process_schema) and the independence of the writer loops over unit classes / section entries (dataflow obligations) are proved. The file round trips themselves run through ElementTree/pandas and are decided by the bounded workload (every bundled schema x 3 formats x merged/unmerged, generated edits, independent XML walk).' + BND,
+ "C05": ("proof", 'Deductive kernel: the refusal to save a multi-library merge (raises before anything is written, ghost output counter), the selection table deciding which entries/attributes are written (_should_skip, _attribute_disallowed, flags set by process_schema) and the independence of the writer loops over unit classes / section entries (dataflow obligations) are proved. The file round trips themselves run through ElementTree/pandas and are decided by the bounded workload (every bundled schema x 3 formats x merged/unmerged, generated edits, independent XML walk).' + BND,
          'writers/readers (schema2xml/wiki/df, *2schema) not under contract; output methods modelled as ghost effects'),
- "C06": ("other", 'Cell handlers (_category_handler, _value_handler) proved from the property text (n/a and empty cells are absent, listed keys select their entry, template filled); reset_column_mapper keeps the sidecar used for references and for transformers the same object. Splicing (re.sub), pandas transforms and the frame of assemble(): bounded workload against an oracle written from the property.' + BND,
+ "C06": ("proof", 'Cell handlers (_category_handler, _value_handler) proved from the property text (n/a and empty cells are absent, listed keys select their entry, template filled); reset_column_mapper keeps the sidecar used for references and for transformers the same object. Splicing (re.sub), pandas transforms and the frame of assemble(): bounded workload against an oracle written from the property.' + BND,
          'str.replace uninterpreted with three sound facts; pandas, re not modelled; ColumnMapper constructor trusted'),
  "C07": ("proof", 'Span remapping for joined row strings proved against joined_offset (induction); error-context stack balanced on every path of validate/_run_checks/_run_onset_checks/_validate_column_structure and, at every site that stamps context onto issues, the ROW context equals the index of the row being processed + row_adj, row_adj = 1 + header, column/string contexts as the property says (ghost context stack); rows judged independently (dataflow); every phase called. Equality with string-level validation, shuffle invariance, totality: bounded workload.' + BND,
          'loops of the pandas-facing functions explored as one arbitrary iteration (sound for the per-iteration ghost clauses); table values opaque'),
@@ -66,6 +66,31 @@ READY = {
          'data-structure invariant of the event list is a precondition exercised by the workload; floats as reals; compress_strings trusted'),
 }
 
+# what the contract-writing pass (contracts/x_w1.py ... x_w5.py, each contract mutation-tested before it was registered) and the later
+# wrapper / data obligations added per property; appended to the level text
+ADDED = {
+ "C01": "Also proved: the multi-tag rules see every tag at any depth and both run; the validators are assembled for the schema handed in; tag characters: prefix and base tag both judged; extension characters located after the base tag.",
+ "C02": "Also proved: the printed forms of a tag against its stored fields (namespace + node name + suffix; the source slice at its span when unidentified), org_tag / org_base_tag / extension, span of a node inside an assembled annotation.",
+ "C03": "Also proved: section look-ups are case-folded unless the section is case sensitive; a finalized node knows its parent and its value child; the table wrappers convert with the complete short_tag / long_tag form.",
+ "C04": "Also proved: rules read attributes only through the resolved node (has_attribute / base_tag_has_attribute / takes_value); re-identification when a tag's text is set; the repetition scan runs on the canonical order and the canonical text brackets every group level; membership by identity.",
+ "C05": "Also proved in the readers and writers: pure string functions in full (wiki tag level, line blocks, section order, prologue/epilogue elements, attribute kinds, one <node> per tag with name/description/attributes), library-call keyword facts (read_csv / to_csv: dtype=str, na_filter, QUOTE_NONE ...), a partnered library is built on a COPY of the cached standard schema, loops over entries independent (dataflow), schema/section/entry equality compares every part.",
+ "C06": "Also proved: transforms work on a copy; every column gets the transformer of its kind with its own annotation; references that name a column are spliced and not listed; the row text joins exactly the cells that are neither empty nor n/a; the table's references are those of its sidecar.",
+ "C07": "Also proved: needs_sorting iff the numeric onsets step down (to_numeric with errors='coerce'); temporal tags without usable time are each reported by canonical short name; blank column names and mapping checks each run; the entry points hand back the sorted list (final-value obligation).",
+ "C08": "Also proved: each column-structure fault has its code; an annotated column hands its annotation (also an empty one) to the per-string rules; reference screening per column and entry independent; definition extraction keeps the context stack balanced.",
+ "C09": "Also proved: definitions judged one by one and only good ones stored under the case-folded name (check_for_definitions with its helpers: group shape, content holds no Def tags, placeholders without content, sorted copy kept), expand_defs / shrink_defs (queue complete, each Def replaced by its own expansion and back), the Def <-> Def-expand switch keeps the tag's namespace, the value of a Def is judged by the placeholder tag's rules, gathered Def-expand groups compared in sorted order.",
+ "C10": "Also proved: the Def of a temporal marker is looked up case-folded with the value-use rule.",
+ "C11": "Also proved: SI prefixes only for SI units (symbols and names apart); unit section look-up (symbols exact, names any case); problem characters re-indexed into the tag; data obligations: the numericClass and dateTimeClass patterns and eleven character-class patterns of class_regex.json equal the stated grammars as regular languages (z3-regex).",
+ "C12": "Also proved: an issue for a handler is filtered and decorated exactly once (also from a stored context); sort_issues rearranges by the documented key, drops nothing and leaves the caller's list alone; the printed report shows exactly the issues of the severity asked; the sidecar / table / schema-compliance entry points hand back the sorted list.",
+ "C13": "Also proved: a group refuses a prefix used twice (also the same object twice); load_schema sets the prefix asked for in every format branch; an added section entry drops finished attribute lists; look-up by name only under the schema's own prefix; group answers come from the owner / from every member; a single version text is handed on unchanged; the version is looked up in the folder asked and refreshed at most once.",
+ "C14": "Also proved: compliance runs every part check and drops nothing; every value of a comma-separated allowedCharacter attribute is judged; numeric attribute values must parse; deprecatedFrom rules; duplicate names recorded with first holder and newcomer; undeclared attributes remembered; name rules for library names and tags; the script sums the issues of every file; validator loops independent (dataflow).",
+ "C15": "Also proved: the '&&' node asks both operands with the same exact flag and combines one match of each via distinct tags; '||' matches iff either operand does (nothing invented, duplicates dropped from the left); exact-group filter; token stream (next token, look-ahead) with the documented parse error; term search finds exactly the tags with the case-folded term on their path, each with its own group.",
+ "C16": "Also proved: the sidecar chain is collected root-down with one answer per directory; a data file is loaded with its MERGED sidecar; a sidecar object is built from the chain it is given; filename entity splitting; CLI hands back the dataset's issues and exits non-zero iff there are any; directory walks independent per file (dataflow).",
+ "C17": "Also proved: a key seen again is counted, not overwritten (KeyMap); operation attributes are the parameters of that name; n/a becomes NaN in a NEW table (prep_data); factor_column input validation.",
+ "C18": "Also proved: the consistency check reports exactly the recorded copies that are missing and the files the record does not name; only consistent backups are listed; the manager refuses a missing data root; the backup / restore / remodel commands call the manager once with the named backup and tasks and never overwrite.",
+ "C19": "Also proved: the installed-copy fallback is taken exactly when the folder is the cache folder in any spelling (realpath) and no prerelease is asked; nothing is served that does not exist; a download is published by the atomic move and the temp file removed; an unchanged cached copy is not downloaded again; the lock file is the entry of the locked folder.",
+ "C20": "Also proved: an Onset opens and an Offset or new Onset closes the process of its (case-folded) name; a Duration process ends at the first row not before its end (with the onset tolerance); the start a process remembers is exactly the row onset; every entry of a time point's context is kept verbatim (compress_strings); a row's context is filtered from its own context.",
+}
+
 PENDING_REASON = "not claimed"
 
 
@@ -78,6 +103,8 @@ def main():
         pid = p["id"]
         if pid in READY:
             cat, text, note = READY[pid]
+            if pid in ADDED:
+                text = text.replace(BND, "") + " " + ADDED[pid] + BND
             checks.append({
                 "property_id": pid,
                 "quick_cmd": f"python3-vt checks/check.py {pid} --tier quick",
